@@ -351,3 +351,10 @@ def _lex_chain(z3):
       ('a-later-criterion-never-worsens-an-earlier-value', [best1, best2], z3.ForAll([v, w], z3.Implies(z3.And(C(v), A(w)), m1(w) <= m1(v)))),
     ]
 LEMMAS['C04/lex-chain'] = dict(raw=_lex_chain)
+
+# ---- C10 -> C02: the rank lists' sum identity, for every weight, is what Solver.solve requires (and hands down to generous / greedy)
+LEMMAS['C02/rank-sums-compose'] = dict(
+    vars={'S': ('obj', 'Solver')},
+    hyps=['sizes_ok(S.model)', 'pairs_ok(S.model)',
+          ('ensures', 'model:Model.set_rank_lists', {'self': 'S.model'}, None, ['sum-over-each-list-is-the-sum-over-the-pairs-with-that-rank-for-every-weight'])],
+    goals=[('requires', 'solver:Solver.solve', {'self': 'S'}, None, ['rank-list-sums-for-every-weight'])])
